@@ -363,7 +363,7 @@ var radixPools = []struct {
 	pool []string
 	max  [2]int // quick, thorough
 }{
-	{"path", []string{"/a", "/ab", "/a/", "/a/b", "/{x}", "/a{x}", "/*{w}", "/a/*{w}/b", "/{x}/b", "/b/", "/a{x}/b", "!bad"}, [2]int{5, 11}},
+	{"path", []string{"/a", "/ab", "/a/", "/a/b", "/{x}", "/a{x}", "/*{w}", "/a/*{w}/b", "/{x}/b", "/b/", "/a{x}/b", "/a/$m", "/~u", "!bad"}, [2]int{5, 11}},
 	{"host", []string{"a.b/", "a.b/a", "a.c/a", "{h}.b/a", "a.b.c/x", "/a", "a.b/ab", "*{s}.b/a", "a.b/{x}", "ab.c/", "/"}, [2]int{5, 11}},
 	{"deep", []string{"/a/b/c", "/a/b/d", "/a/bc", "/a/{x}/c", "/a/{x}/d", "/a/*{w}", "/ab", "/a", "/a/b/", "/a/b"}, [2]int{5, 10}},
 }
